@@ -30,7 +30,7 @@ func init() {
 
 type wmAnchors struct {
 	process, newFn, begin, done, wait, doneUntilFn *ssa.Function
-	fDoneUntil, fMarkC, fTs, fDone, fWaiter       *types.Var
+	fDoneUntil, fMarkC, fTs, fDone, fWaiter        *types.Var
 }
 
 func wmGet(c *Ctx, r *RuleRun) *wmAnchors {
